@@ -29,6 +29,7 @@ func (a atom) String(w *World) string {
 // strAtoms flattens a string-typed value built with + (and single-assignment
 // locals) into its sequence of atoms.
 func strAtoms(v ssa.Value) []atom {
+	v = origin(v)
 	switch x := v.(type) {
 	case *ssa.BinOp:
 		if x.Op == token.ADD {
@@ -99,6 +100,7 @@ func atomsString(w *World, as []atom) string {
 //   hex.EncodeToString(src)
 // Returns the encoder name ("base64.StdEncoding", "hex") and the source value.
 func encodedBy(w *World, fn *ssa.Function, v ssa.Value) (string, ssa.Value, string) {
+	v = origin(v)
 	if cv, ok := v.(*ssa.Convert); ok {
 		// string(dst)
 		if mk, ok := cv.X.(*ssa.MakeSlice); ok {
@@ -153,10 +155,43 @@ func encodingName(v ssa.Value) string {
 
 // bytesOfString: v is []byte(s); returns s.
 func bytesOfString(v ssa.Value) (ssa.Value, bool) {
+	v = origin(v)
 	if cv, ok := v.(*ssa.Convert); ok {
 		return cv.X, true
 	}
 	return nil, false
+}
+
+// nfAt: normal form of a value inside the callee of call site `at`, with the callee's parameters bound to
+// the arguments of that call (used when a helper has several call sites).
+func (w *World) nfAt(v ssa.Value, at *ssa.Call, depth int) string {
+	callee := at.Call.StaticCallee()
+	saved := nfBind
+	nb := map[*ssa.Parameter]ssa.Value{}
+	for k, val := range saved {
+		nb[k] = val
+	}
+	for i, p := range callee.Params {
+		if i < len(at.Call.Args) {
+			nb[p] = at.Call.Args[i]
+		}
+	}
+	nfBind = nb
+	defer func() { nfBind = saved }()
+	return w.nf(v, depth)
+}
+
+var nfBind map[*ssa.Parameter]ssa.Value
+
+// nfPath: when set, phis are resolved along this path and walked-through calls by what they returned on it.
+var nfPath []ssa.Instruction
+
+// nfOn: normal form of v as it is on the given path (must be called inside a visit callback).
+func (w *World) nfOn(v ssa.Value, path []ssa.Instruction) string {
+	saved := nfPath
+	nfPath = path
+	defer func() { nfPath = saved }()
+	return w.nf(v, 0)
 }
 
 // nf: canonical string of a value's defining expression. Conversions and
@@ -176,6 +211,20 @@ func (w *World) nf(v ssa.Value, depth int) string {
 		}
 		return x.Value.ExactString()
 	case *ssa.Parameter:
+		if nfPath != nil && curPath != nil {
+			if r := rvAny(x); r != ssa.Value(x) {
+				return w.nf(r, depth+1)
+			}
+		}
+		if b, ok := nfBind[x]; ok {
+			saved := nfBind
+			nfBind = nil // the argument lives in the caller
+			defer func() { nfBind = saved }()
+			return w.nf(b, depth+1)
+		}
+		if o := origin(x); o != ssa.Value(x) {
+			return w.nf(o, depth+1)
+		}
 		return "param:" + x.Name()
 	case *ssa.Convert:
 		return w.nf(x.X, depth+1)
@@ -219,6 +268,31 @@ func (w *World) nf(v ssa.Value, depth int) string {
 		}
 		return x.Op.String() + "(" + a + "," + b + ")"
 	case *ssa.Call:
+		if nfPath != nil && curPath != nil {
+			if in, ok := ssa.Value(x).(ssa.Instruction); ok {
+				if fr := curPath.frameOf(in); fr != nil {
+					if r, _ := curPath.res(x, fr); r != ssa.Value(x) {
+						return w.nf(r, depth+1)
+					}
+				}
+			}
+		}
+		if callee := x.Call.StaticCallee(); isHelper(callee) {
+			// a helper the reference tree does not have: its result is what it returns
+			var rets []string
+			allInstrs(callee, func(in ssa.Instruction) {
+				if r, ok := in.(*ssa.Return); ok && len(r.Results) == 1 {
+					rets = append(rets, w.nfAt(r.Results[0], x, depth+1))
+				}
+			})
+			if len(rets) == 1 {
+				return rets[0]
+			}
+			if len(rets) > 1 {
+				sortStrings(rets)
+				return "phi(" + strings.Join(rets, "|") + ")"
+			}
+		}
 		var args []string
 		for _, a := range x.Call.Args {
 			args = append(args, w.nf(a, depth+1))
@@ -226,10 +300,33 @@ func (w *World) nf(v ssa.Value, depth int) string {
 		if x.Call.IsInvoke() {
 			args = append([]string{w.nf(x.Call.Value, depth+1)}, args...)
 		}
-		return w.callKey(x) + "(" + strings.Join(args, ",") + ")"
+		key := w.callKey(x)
+		// equivalent standard-library idioms
+		switch key {
+		case "strings.LastIndexByte", "strings.IndexByte":
+			if len(x.Call.Args) == 2 {
+				if k, ok := intConst(x.Call.Args[1]); ok {
+					key = strings.TrimSuffix(key, "Byte")
+					args[1] = fmt.Sprintf("%q", string(rune(k)))
+				}
+			}
+		}
+		return key + "(" + strings.Join(args, ",") + ")"
 	case *ssa.Extract:
+		if nfPath != nil && curPath != nil {
+			if fr := curPath.frameOf(x); fr != nil {
+				if r, _ := curPath.res(x, fr); r != ssa.Value(x) {
+					return w.nf(r, depth+1)
+				}
+			}
+		}
 		return fmt.Sprintf("%s#%d", w.nf(x.Tuple, depth+1), x.Index)
 	case *ssa.Phi:
+		if nfPath != nil {
+			if r := valueOnPath(x, nfPath); r != ssa.Value(x) {
+				return w.nf(r, depth+1)
+			}
+		}
 		var es []string
 		for _, e := range x.Edges {
 			es = append(es, w.nf(e, depth+1))
@@ -320,9 +417,15 @@ func (w *World) condNF(c ssa.Value, truth bool) string {
 func (w *World) pathConds(path []ssa.Instruction) []string {
 	var out []string
 	seen := map[string]bool{}
+	saved := nfPath
+	nfPath = path
+	defer func() { nfPath = saved }()
 	pathEdges(path, func(b *ssa.BasicBlock, succ int) {
 		if c, t, ok := edgeAssertion(b, succ); ok {
 			s := w.condNF(c, t)
+			if s == "true=true" || s == "false=false" {
+				return // a constant the path selected (e.g. the value of a || b returned by a helper)
+			}
 			if !seen[s] {
 				seen[s] = true
 				out = append(out, s)
